@@ -153,6 +153,7 @@ func runC06(c *Ctx) {
 	if rnl := c.MustFunc("C06-R7", "internal/parser.ContentReader.readNextLine"); rnl != nil {
 		linesPublishedBlanked(c, "C06-R7", rnl)
 		c10ReadConsumes(c, "C06-R7")
+		c02KeyValueSameOrigin(c, "C06-R6")
 	}
 	c06WhitespaceIsContent(c)
 	c06OnlyMatchedPositions(c)
